@@ -33,10 +33,12 @@ type Node struct {
 }
 
 type Rendered struct {
-	Name  string
-	Text  []byte
-	Nodes []*Node // index = ID (0 unused)
-	Top   []int   // ids of top-level attr/block nodes in order
+	// Unreliable: the text may parse into another structure than the node table describes
+	Unreliable bool
+	Name       string
+	Text       []byte
+	Nodes      []*Node // index = ID (0 unused)
+	Top        []int   // ids of top-level attr/block nodes in order
 	// TopStart[i] = byte offset at which the line of top-level item i begins
 	// (insertion points for translation edits), plus len(Text) as last entry.
 	InsertPoints []int
@@ -96,6 +98,17 @@ func Render(f *FileSpec) *Rendered {
 	out.InsertPoints = append(out.InsertPoints, r.off())
 	out.Text = []byte(r.b.String())
 	out.Nodes = r.nodes
+	// a half-typed fragment that opens a heredoc swallows whatever follows up to
+	// some later marker line: the node table says nothing about such a text
+	WalkItems(f.Items, func(it *Item, d int) {
+		if it.Attr != nil {
+			it.Attr.Expr.Walk(func(e *Expr) {
+				if e.K == "raw" && strings.Contains(e.S, "<<") {
+					out.Unreliable = true
+				}
+			})
+		}
+	})
 	return out
 }
 
